@@ -104,7 +104,8 @@ def strategy(tier):
 
 
 def is_plve(e):
-    return type(e).__name__ == "PieceLengthValueError"
+    # the piece-length error or a subclass of it
+    return any(c.__name__ == "PieceLengthValueError" for c in type(e).__mro__)
 
 
 def judge(exp, got, exc, where, shown):
